@@ -1002,3 +1002,297 @@ Proof.
   destruct (String.eqb u r) eqn:E0; [reflexivity|]. unfold max_level. cbn [bfs mem_str existsb].
   rewrite (String.eqb_sym r u), E0. reflexivity.
 Qed.
+
+(* ================= 11. idempotent: a replayed call reports nothing and changes nothing ================= *)
+Definition nothing (op : dop) : dres :=
+  match op with
+  | DAdd _ _ | DRemove _ _ | DRemoveFiltered _ _ _ => DRules [] false
+  | DClear => DUnit false
+  | DUpdate _ _ _ | DUpdateMany _ _ _ | DUpdateFiltered _ _ _ _ => DFlag false false
+  end.
+
+(* listed rules of every type and links of every role definition are the same *)
+Definition unchanged (s s' : mstate) : Prop :=
+  (forall pt, pol (get_store s' pt) = pol (get_store s pt)) /\ (forall pt, get_links s' pt = get_links s pt).
+
+Definition op_defined (cfg : mconf) (op : dop) : Prop :=
+  match op with
+  | DClear => True
+  | DAdd pt _ | DRemove pt _ | DRemoveFiltered pt _ _ | DUpdate pt _ _ | DUpdateMany pt _ _
+  | DUpdateFiltered pt _ _ _ => def_of cfg pt <> None
+  end.
+
+(* an empty batch update "succeeds" every time *)
+Definition repeatable (op : dop) : Prop :=
+  match op with DUpdateMany _ os _ => os <> [] | _ => True end.
+
+Lemma mem_change_unchanged s s' pt st ls : mem_change s s' pt st ls ->
+  pol st = pol (get_store s pt) -> ls = get_links s pt -> unchanged s s'.
+Proof.
+  intros [S L] Hp Hl. split; intros pt'; [rewrite S|rewrite L]; destruct (String.eqb pt' pt) eqn:E; try reflexivity;
+    apply String.eqb_eq in E; subst pt'; assumption.
+Qed.
+
+Lemma unchanged_refl s : unchanged s s. Proof. split; reflexivity. Qed.
+
+Lemma same_mem_unchanged s s' : same_mem s s' -> unchanged s s'.
+Proof. intros [S L]. split; intros pt; [rewrite S|rewrite L]; reflexivity. Qed.
+
+Lemma links_after_nil d ls : links_after d [] [] ls = ls.
+Proof. unfold links_after. destruct (a_is_g d); reflexivity. Qed.
+
+Lemma filter_neg_nil {A} (f : A -> bool) l : filter f (filter (fun x => negb (f x)) l) = [].
+Proof.
+  induction l as [|x t IH]; cbn [filter]; [reflexivity|]. destruct (f x) eqn:E; cbn [negb filter]; [exact IH|].
+  rewrite E. exact IH.
+Qed.
+Lemma filter_idem {A} (f : A -> bool) l : filter f (filter f l) = filter f l.
+Proof.
+  induction l as [|x t IH]; cbn [filter]; [reflexivity|]. destruct (f x) eqn:E; cbn [filter]; [|exact IH].
+  rewrite E, IH. reflexivity.
+Qed.
+
+Lemma update_many_again_missing cfg s pt d o os n ns : MInv cfg s -> wf_rule o = true ->
+  ~ In o (pol (get_store s pt)) ->
+  snd (update_many_mem d s pt (o :: os) (n :: ns)) = DFlag false false /\
+  unchanged s (fst (update_many_mem d s pt (o :: os) (n :: ns))).
+Proof.
+  intros M W H. rewrite (update_many_mem_missing cfg s pt d o os n ns M W H). cbn [fst snd].
+  split; [reflexivity|]. apply same_mem_unchanged, with_store_same.
+Qed.
+
+Theorem self_mem_again cfg s op old : MInv cfg s -> dop_ok cfg s op -> op_defined cfg op -> repeatable op ->
+  forall s1 old', same_mem (fst (self_mem cfg s op old)) s1 ->
+    dop_ok cfg s1 op /\ snd (self_mem cfg s1 op old') = nothing op /\ unchanged s1 (fst (self_mem cfg s1 op old')).
+Proof.
+  intros M G Hdef Hrep s1 old' Sm.
+  pose proof (MInv_same_mem cfg _ _ Sm (self_mem_MInv cfg s op old M G)) as M1.
+  pose proof (fun pt => Inv_NoDup _ (proj1 M pt)) as ND.
+  destruct op as [pt rs|pt rs|pt fi fvs| |pt o n|pt os ns|pt ns fi fvs];
+    cbn [self_mem dop_ok op_defined repeatable nothing] in *;
+    try (destruct (def_of cfg pt) as [d|] eqn:Hd; [|congruence]).
+  - (* add *)
+    destruct (add_mem_spec cfg s pt d rs M Hd (G d eq_refl)) as (st' & _ & Pp & _ & Mc).
+    destruct (mem_change_at _ _ _ _ _ Mc) as (Es & _ & _).
+    assert (E1 : pol (get_store s1 pt) = fst (spec_add_many (a_prio d) (pol (get_store s pt)) rs))
+      by (rewrite (proj1 Sm pt), Es; exact Pp).
+    assert (Hall : forall r, In r rs -> In r (pol (get_store s1 pt))) by (intros r Hr; rewrite E1, spec_add_many_In; auto).
+    split; [exact G|].
+    destruct (add_mem_spec cfg s1 pt d rs M1 Hd (G d eq_refl)) as (st2 & _ & Pp2 & Pr2 & Mc2).
+    rewrite (added_all_listed rs _ Hall) in *. split; [exact Pr2|].
+    apply (mem_change_unchanged _ _ _ _ _ Mc2); [|apply links_after_nil].
+    rewrite Pp2. apply spec_add_many_all_listed, Hall.
+  - (* remove *)
+    destruct (remove_mem_spec cfg s pt d rs M Hd G) as (st' & _ & Pp & _ & Mc).
+    destruct (mem_change_at _ _ _ _ _ Mc) as (Es & _ & _).
+    assert (E1 : pol (get_store s1 pt) = fst (spec_remove_many (pol (get_store s pt)) rs))
+      by (rewrite (proj1 Sm pt), Es; exact Pp).
+    assert (Hnone : forall r, In r rs -> ~ In r (pol (get_store s1 pt))).
+    { intros r Hr. rewrite E1, (spec_remove_many_In rs _ r (ND pt)). tauto. }
+    split; [exact G|].
+    destruct (remove_mem_spec cfg s1 pt d rs M1 Hd G) as (st2 & _ & Pp2 & Pr2 & Mc2).
+    rewrite (removed_none_listed rs _ Hnone) in *. split; [exact Pr2|].
+    apply (mem_change_unchanged _ _ _ _ _ Mc2); [|apply links_after_nil].
+    rewrite Pp2. apply spec_remove_many_none_listed, Hnone.
+  - (* remove filtered *)
+    destruct (remove_filtered_mem_spec cfg s pt d fi fvs M Hd G) as (st' & _ & Pp & _ & Mc).
+    destruct (mem_change_at _ _ _ _ _ Mc) as (Es & _ & _).
+    assert (E1 : pol (get_store s1 pt) = filter (fun r => negb (matches_spec fi fvs r)) (pol (get_store s pt)))
+      by (rewrite (proj1 Sm pt), Es; exact Pp).
+    assert (G1 : in_range fi fvs (pol (get_store s1 pt))).
+    { intros r Hr. rewrite E1 in Hr. apply filter_In in Hr as [Hr _]. apply G, Hr. }
+    split; [exact G1|].
+    destruct (remove_filtered_mem_spec cfg s1 pt d fi fvs M1 Hd G1) as (st2 & _ & Pp2 & Pr2 & Mc2).
+    rewrite E1, filter_neg_nil in Pr2, Mc2. split; [exact Pr2|].
+    apply (mem_change_unchanged _ _ _ _ _ Mc2); [|apply links_after_nil].
+    rewrite Pp2, E1. apply filter_idem.
+  - (* clear *)
+    cbn [fst snd] in Sm |- *. split; [exact I|]. split; [reflexivity|]. split; intros pt.
+    + rewrite (proj1 Sm pt). rewrite (proj1 (clear_policy_empty cfg s1 pt)), (proj1 (clear_policy_empty cfg s pt)). reflexivity.
+    + rewrite (proj2 Sm pt). rewrite (proj2 (clear_policy_empty cfg s1 pt)), (proj2 (clear_policy_empty cfg s pt)). reflexivity.
+  - (* update *)
+    destruct (G d eq_refl) as [Rk Hn]. pose proof Rk as [W _]. inversion W as [|? ? Wo _]; subst.
+    assert (Ho1 : ~ In o (pol (get_store s1 pt))).
+    { destruct (in_dec_rule o (pol (get_store s pt))) as [Ho|Ho].
+      - assert (Nn : ~ In n (pol (get_store s pt))) by (destruct Hn; [contradiction|assumption]).
+        destruct (update_mem_spec cfg s pt d o n M Hd Rk Ho Nn) as (st' & _ & Pp & _ & Mc).
+        destruct (mem_change_at _ _ _ _ _ Mc) as (Es & _ & _). rewrite (proj1 Sm pt), Es, Pp.
+        rewrite (replace_first_In_iff o n _ o (ND pt) Ho Nn). intros [[_ H]|H]; [congruence|]. subst n. contradiction.
+      - rewrite (update_mem_missing cfg s pt d o n M Wo Ho) in Sm. cbn [fst] in Sm. rewrite (proj1 Sm pt). exact Ho. }
+    split; [intros d' Hd'; inversion Hd'; subst d'; split; [exact Rk|left; exact Ho1]|].
+    rewrite (update_mem_missing cfg s1 pt d o n M1 Wo Ho1). cbn [fst snd]. split; [reflexivity|apply unchanged_refl].
+  - (* update many *)
+    destruct (G d eq_refl) as (Ro & Rn & El & Hc).
+    destruct os as [|o os']; [congruence|]. destruct ns as [|n ns']; [discriminate|].
+    pose proof Ro as [W _]. inversion W as [|? ? Wo _]; subst.
+    assert (Hcases : ~ In o (pol (get_store s1 pt)) \/
+              (pol (get_store s1 pt) = pol (get_store s pt) /\
+               spec_update_many (pol (get_store s pt)) (o :: os') (n :: ns') = None /\
+               NoDup (n :: ns') /\ (forall x, In x (n :: ns') -> ~ In x (pol (get_store s pt))) /\
+               (forall x, In x (n :: ns') -> ~ In x (o :: os')))).
+    { destruct Hc as [(o2 & os2 & Eo & Ho)|(NDn & Hf & Hdj)].
+      - inversion Eo; subst o2 os2. left.
+        rewrite (update_many_mem_missing cfg s pt d o os' n ns' M Wo Ho) in Sm. cbn [fst] in Sm.
+        rewrite (proj1 Sm pt), get_store_with_store, String.eqb_refl. exact Ho.
+      - destruct (update_many_mem_spec cfg s pt d _ _ M Hd Ro Rn El NDn Hf Hdj) as (st' & _ & Hs).
+        destruct (spec_update_many (pol (get_store s pt)) (o :: os') (n :: ns')) as [l'|] eqn:Esp; destruct Hs as (Pp & _ & Mc);
+          destruct (mem_change_at _ _ _ _ _ Mc) as (Es & _ & _).
+        + left. rewrite (proj1 Sm pt), Es, Pp.
+          rewrite (proj2 (spec_update_many_In _ _ _ l' o (ND pt) NDn Hf Hdj Esp El)).
+          intros [[_ H]|H]; [apply H; left; reflexivity|apply (Hdj o H); left; reflexivity].
+        + right. rewrite (proj1 Sm pt), Es. auto. }
+    destruct Hcases as [Ho1|(Ep & Esp & NDn & Hf & Hdj)].
+    + split; [intros d' Hd'; inversion Hd'; subst d'; split; [exact Ro|]; split; [exact Rn|]; split; [exact El|];
+              left; exists o, os'; split; [reflexivity|exact Ho1]|].
+      apply (update_many_again_missing cfg s1 pt d o os' n ns' M1 Wo Ho1).
+    + rewrite <- Ep in Hf.
+      split; [intros d' Hd'; inversion Hd'; subst d'; split; [exact Ro|]; split; [exact Rn|]; split; [exact El|];
+              right; split; [exact NDn|]; split; [exact Hf|exact Hdj]|].
+      destruct (update_many_mem_spec cfg s1 pt d _ _ M1 Hd Ro Rn El NDn Hf Hdj) as (st2 & _ & Hs).
+      rewrite Ep, Esp in Hs. destruct Hs as (Pp2 & Pr2 & Mc2). split; [exact Pr2|].
+      apply (mem_change_unchanged _ _ _ _ _ Mc2); [rewrite Pp2; symmetry; exact Ep|reflexivity].
+  - contradiction.
+Qed.
+
+Lemma unchanged_pre a b c : same_mem a b -> unchanged b c -> unchanged a c.
+Proof. intros [S L] [P Q]. split; intros pt; [rewrite P, S|rewrite Q, L]; reflexivity. Qed.
+
+Theorem idempotent cfg s op p1 p2 : MInv cfg s -> dop_ok cfg s op -> op_defined cfg op -> repeatable op ->
+  call_ok s p1 -> call_ok (fst (dstep cfg s op p1)) p2 ->
+  let s1 := fst (dstep cfg s op p1) in
+  snd (dstep cfg s1 op p2) = nothing op /\ unchanged s1 (fst (dstep cfg s1 op p2)) /\ dop_ok cfg s1 op.
+Proof.
+  intros M G Hdef Hrep O1 O2 s1. subst s1.
+  destruct (dstep_mem cfg s op p1 O1) as (t1 & old1 & Sm1 & E1 & _).
+  destruct (dstep_mem cfg _ op p2 O2) as (t2 & old2 & Sm2 & E2 & _). rewrite E2. rewrite E1 in Sm2 |- *.
+  destruct (self_mem_again cfg t1 op old1 (MInv_same_mem cfg _ _ Sm1 M) (dop_ok_same_mem cfg _ _ op Sm1 G) Hdef Hrep t2 old2 Sm2)
+    as (G2 & R2 & U2).
+  split; [exact R2|]. split; [apply (unchanged_pre _ t2 _ Sm2 U2)|].
+  apply (dop_ok_same_mem cfg t2 _ op (same_mem_sym _ _ Sm2) G2).
+Qed.
+
+(* ================= 12. the guards are necessary: witnesses on the faithful model ================= *)
+Local Open Scope string_scope.
+Definition cfg_p : mconf := [("p", {| a_is_g := false; a_arity := 2; a_prio := None |})].
+Definition s_ab : mstate :=
+  fst (dstep cfg_p (init_state cfg_p false false WNone []) (DAdd "p" [["a"; "x"]; ["b"; "y"]]) false).
+
+(* F08: UpdatePolicySelf(A -> A) reports true every time it is replayed *)
+Lemma update_same_refuted :
+  let s1 := fst (dstep cfg_p s_ab (DUpdate "p" ["a"; "x"] ["a"; "x"]) false) in
+  snd (dstep cfg_p s1 (DUpdate "p" ["a"; "x"] ["a"; "x"]) false) = DFlag true false.
+Proof. vm_compute. reflexivity. Qed.
+
+(* F08: UpdatePolicySelf(A -> B) with B listed lists B twice; RemovePoliciesSelf([B]) then
+   reports B as removed although B is still listed, and reports it again when replayed *)
+Lemma update_to_listed_refuted :
+  let s1 := fst (dstep cfg_p s_ab (DUpdate "p" ["a"; "x"] ["b"; "y"]) false) in
+  let r2 := dstep cfg_p s1 (DRemove "p" [["b"; "y"]]) false in
+  let r3 := dstep cfg_p (fst r2) (DRemove "p" [["b"; "y"]]) false in
+  pol (get_store s1 "p") = [["b"; "y"]; ["b"; "y"]] /\
+  snd r2 = DRules [["b"; "y"]] false /\ pol (get_store (fst r2) "p") = [["b"; "y"]] /\
+  snd r3 = DRules [["b"; "y"]] false.
+Proof. vm_compute. repeat split; reflexivity. Qed.
+
+(* an empty batch update reports true on every replay *)
+Lemma update_many_empty_refuted :
+  let s1 := fst (dstep cfg_p s_ab (DUpdateMany "p" [] []) false) in
+  snd (dstep cfg_p s1 (DUpdateMany "p" [] []) false) = DFlag true false.
+Proof. vm_compute. reflexivity. Qed.
+
+(* a call on a policy type the model does not define fails every time (and changes nothing) *)
+Lemma unknown_type_refuted :
+  let r1 := dstep cfg_p s_ab (DAdd "q" [["a"; "x"]]) false in
+  snd r1 = DRules [] true /\ snd (dstep cfg_p (fst r1) (DAdd "q" [["a"; "x"]]) false) = DRules [] true.
+Proof. vm_compute. split; reflexivity. Qed.
+
+(* F09 family: UpdateFilteredPoliciesSelf takes its old rules from the adapter.  A replica that
+   does not persist has none: it ADDS the new rule next to the one it should replace and reports
+   false, while a persisting replica in sync with its adapter replaces it and reports true — the
+   replicas diverge.  This is why replicas_agree excludes this call. *)
+Lemma update_filtered_diverges_refuted :
+  let s0 := fst (dstep cfg_p (init_state cfg_p false false WNone []) (DAdd "p" [["a"; "x"]]) true) in
+  let op := DUpdateFiltered "p" [["a"; "z"]] 0 ["a"] in
+  snd (dstep cfg_p s0 op true) = DFlag true false /\
+  pol (get_store (fst (dstep cfg_p s0 op true)) "p") = [["a"; "z"]] /\
+  snd (dstep cfg_p s0 op false) = DFlag false false /\
+  pol (get_store (fst (dstep cfg_p s0 op false)) "p") = [["a"; "x"]; ["a"; "z"]].
+Proof. vm_compute. repeat split; reflexivity. Qed.
+
+(* ================= 13. every log: replicas with different persist predicates ================= *)
+Lemma dguards_no_filtered cfg : forall log s, dguards cfg s log -> no_filtered (map fst log).
+Proof.
+  induction log as [|[op p] t IH]; intros s G; cbn [map fst no_filtered]; [exact I|]. destruct G as [G1 G2].
+  split; [destruct op; cbn [not_filtered dop_ok] in *; auto|]. apply (IH _ G2).
+Qed.
+
+Theorem replicas_all_logs cfg log1 log2 s1 s2 :
+  map fst log1 = map fst log2 -> same_mem s1 s2 -> fail_in (ad s1) = None -> fail_in (ad s2) = None ->
+  MInv cfg s1 -> dguards cfg s1 log1 ->
+  snd (drun cfg s1 log1) = snd (drun cfg s2 log2) /\
+  same_mem (fst (drun cfg s1 log1)) (fst (drun cfg s2 log2)) /\
+  MInv cfg (fst (drun cfg s1 log1)) /\ MInv cfg (fst (drun cfg s2 log2)).
+Proof.
+  intros Hm Sm F1 F2 M G.
+  destruct (replicas_agree_log cfg log1 log2 s1 s2 Hm (dguards_no_filtered cfg log1 s1 G) Sm F1 F2) as [S R].
+  pose proof (drun_MInv cfg log1 s1 M G) as M1.
+  split; [exact R|]. split; [exact S|]. split; [exact M1|]. apply (MInv_same_mem cfg _ _ S M1).
+Qed.
+
+(* non-vacuity: an RBAC configuration; a log with an overlapping batch that repeats a rule, a
+   replayed entry, an update, a filtered removal and ClearPolicySelf (the witness of F02) is
+   inside the guards; two replicas with opposite persist decisions are computed *)
+Definition cfg_rbac : mconf :=
+  [("g", {| a_is_g := true; a_arity := 2; a_prio := None |});
+   ("p", {| a_is_g := false; a_arity := 3; a_prio := None |})].
+Definition ex_ops : list dop :=
+  [DAdd "g" [["alice"; "admin"]; ["bob"; "admin"]; ["alice"; "admin"]];
+   DAdd "g" [["bob"; "admin"]; ["admin"; "root"]];
+   DAdd "g" [["bob"; "admin"]; ["admin"; "root"]];
+   DAdd "p" [["root"; "data1"; "read"]];
+   DUpdate "g" ["bob"; "admin"] ["bob"; "root"];
+   DRemoveFiltered "g" 0 ["alice"]].
+Definition ex_log (p : bool) : list (dop * bool) := map (fun o => (o, p)) ex_ops.
+Definition ex_s0 : mstate := init_state cfg_rbac false false WNone [].
+
+Lemma example_guards : dguards cfg_rbac ex_s0 (ex_log true).
+Proof.
+  assert (RK : forall rs, Forall (fun r => wf_rule r = true /\ List.length r = 2) rs ->
+               rules_ok {| a_is_g := true; a_arity := 2; a_prio := None |} rs).
+  { intros rs H. split; [eapply Forall_impl; [|exact H]; cbn; tauto|]. intros _ r Hr.
+    eapply Forall_forall in H; [|exact Hr]. apply H. }
+  cbn [ex_log ex_ops map dguards].
+  split; [intros d Hd; vm_compute in Hd; inversion Hd; subst; apply RK; repeat constructor|].
+  split; [intros d Hd; vm_compute in Hd; inversion Hd; subst; apply RK; repeat constructor|].
+  split; [intros d Hd; vm_compute in Hd; inversion Hd; subst; apply RK; repeat constructor|].
+  split; [intros d Hd; vm_compute in Hd; inversion Hd; subst; split; [repeat constructor|]; intros H; discriminate|].
+  split; [intros d Hd; vm_compute in Hd; inversion Hd; subst; split; [apply RK; repeat constructor|];
+          right; vm_compute; intros [H|[H|[H|[]]]]; discriminate|].
+  split; [|exact I].
+  vm_compute. intros r [<-|[<-|[<-|[]]]]; discriminate.
+Qed.
+
+Lemma example_results :
+  snd (drun cfg_rbac ex_s0 (ex_log true)) =
+    [DRules [["alice"; "admin"]; ["bob"; "admin"]] false; DRules [["admin"; "root"]] false; DRules [] false;
+     DRules [["root"; "data1"; "read"]] false; DFlag true false; DRules [["alice"; "admin"]] false] /\
+  snd (drun cfg_rbac ex_s0 (ex_log false)) = snd (drun cfg_rbac ex_s0 (ex_log true)) /\
+  listed cfg_rbac (fst (drun cfg_rbac ex_s0 (ex_log true))) =
+    [("g", [["bob"; "root"]; ["admin"; "root"]]); ("p", [["root"; "data1"; "read"]])] /\
+  decide_rbac (fst (drun cfg_rbac ex_s0 (ex_log false))) "bob" "data1" "read" = true /\
+  alog (ad (fst (drun cfg_rbac ex_s0 (ex_log false)))) = [] /\
+  List.length (alog (ad (fst (drun cfg_rbac ex_s0 (ex_log true))))) = 6.
+Proof. vm_compute. repeat split; reflexivity. Qed.
+
+(* the witness of F02: a grouping rule added, then ClearPolicySelf — no link survives *)
+Lemma example_clear :
+  let s1 := fst (drun cfg_rbac ex_s0 [(DAdd "g" [["alice"; "admin"]], true); (DClear, false)]) in
+  listed cfg_rbac s1 = [("g", []); ("p", [])] /\ has_link (get_links s1 "g") "alice" "admin" "" = false.
+Proof. vm_compute. split; reflexivity. Qed.
+
+Lemma example_init : MInv cfg_rbac ex_s0.
+Proof.
+  apply init_MInv. intros pt d Hd Hg. unfold def_of, cfg_rbac in Hd. cbn [lookup] in Hd.
+  destruct (String.eqb pt "g"); [inversion Hd; subst; left; reflexivity|].
+  destruct (String.eqb pt "p"); [inversion Hd; subst; discriminate Hg|discriminate].
+Qed.
